@@ -56,6 +56,10 @@ def run(R, job):
         check("HTML+plain", core.Tag("div", {"class": HTML(h)}, class_=a), [("class", h + " " + esca(a))])
         check("HTML+HTML", core.Tag("div", {"class": HTML(h)}, class_=HTML(h)), [("class", h + " " + h)])
         check("three", core.Tag("div", {"class": a}, {"class": HTML(h)}, class_=b), [("class", esca(a) + " " + h + " " + esca(b))])
+        at, _ = core.consolidate_attrs({"class": a}, class_=HTML(h)); check("consolidate_attrs then Tag", core.Tag("div", at), [("class", esca(a) + " " + h)])
+        at, _ = core.consolidate_attrs(title=a); check("consolidate_attrs (plain) then Tag", core.Tag("div", **at), [("title", esca(a))])
+        check("add_class plain onto HTML", core.Tag("div", class_=HTML(h)).add_class(a), [("class", h + " " + esca(a))])
+        check("add_class HTML onto plain (prepend)", core.Tag("div", class_=a).add_class(HTML(h), prepend=True), [("class", h + " " + esca(a))])
         t = core.Tag("div"); t.attrs.update(title=a); check("attrs.update", t, [("title", esca(a))])
         t = core.Tag("div"); t.attrs["title"] = a; check("setitem", t, [("title", esca(a))])
         tok = a.replace(" ", "") or "k"
